@@ -38,19 +38,52 @@ func (p *Prog) seqProducerShape() seqShape {
 		if !ok {
 			return
 		}
-		k := cz.of(mu.Key)
+		// the key may be chosen first and stored once: a phi of loads of the key variables stands for each of them
+		var alts []string
+		var collect func(v ssa.Value, d int) bool
+		collect = func(v ssa.Value, d int) bool {
+			if ph, isPhi := v.(*ssa.Phi); isPhi && d < 4 {
+				for _, e := range ph.Edges {
+					if !collect(e, d+1) {
+						return false
+					}
+				}
+				return true
+			}
+			alts = append(alts, cz.of(v))
+			return true
+		}
+		collect(mu.Key, 0)
+		k := ""
 		var need []string
-		switch k {
-		case "load(mxj.commentK)", "load(mxj.directiveK)":
-			need = []string{"load(mxj.textK)"}
-		case "load(mxj.procinstK)":
-			need = []string{"load(mxj.targetK)", "load(mxj.instK)"}
-		case "load(mxj.attrK)":
-			need = nil
-		default:
+		special, other := 0, 0
+		for _, a := range alts {
+			switch a {
+			case "load(mxj.commentK)", "load(mxj.directiveK)":
+				need = append(need, "load(mxj.textK)")
+				special++
+			case "load(mxj.procinstK)":
+				need = append(need, "load(mxj.targetK)", "load(mxj.instK)")
+				special++
+			case "load(mxj.attrK)":
+				special++
+			default:
+				other++
+			}
+			if k != "" {
+				k += "|"
+			}
+			k += a
+		}
+		if special == 0 {
 			return
 		}
-		n++
+		if other > 0 || (special > 1 && strings.Contains(k, "load(mxj.attrK)")) {
+			res.ok = false
+			res.details = append(res.details, "the key of the store at "+p.Pos(in.Pos())+" may be a special key or something else ("+k+")")
+			return
+		}
+		n += special
 		mi, ok := mu.Value.(*ssa.MakeInterface)
 		if !ok {
 			res.ok = false
@@ -113,9 +146,9 @@ func (p *Prog) seqProducerShape() seqShape {
 			}
 		}
 	})
-	if n < 6 {
+	if n < 4 {
 		res.ok = false
-		res.details = append(res.details, fmt.Sprintf("only %d stores under the special keys found in the decoder (expected at least 6)", n))
+		res.details = append(res.details, fmt.Sprintf("only %d stores under the special keys found in the decoder (expected at least 4: comments, directives, instructions, attributes)", n))
 	}
 	if res.ok {
 		res.why = fmt.Sprintf("producer side checked: all %d stores of the sequence decoder under the comment/directive/procinst/attr keys have the asserted shape", n)
